@@ -112,6 +112,25 @@ def layouts(tier):
             add(4, dw, 2, [_reg(dw + 1, "rw"), _reg(1, "rw")], (None, 0))
             for regs in triples:
                 add(4, dw, 0, [dict(r, addr=None if r["addr"] is None else r["addr"] + 3) for r in regs], (None, 0))
+    # counts that are not powers of two: five to seven one-word registers in a row (all sharing one shadow chunk under
+    # the default limit), registers of five to seven bus words, and a padded register right above an unpadded one
+    for n in (5, 6, 7):
+        add(3, 1, 0, [_reg(1, "rw") for _ in range(n)], (None, 0) if n == 5 else (None,))
+        add(3, 1, 0, [_reg(n, "rw", 0)], (None,))
+    add(3, 2, 0, [_reg(2, "r") for _ in range(5)], (None,))
+    add(3, 1, 0, [_reg(1, "r") for _ in range(5)], (1, 2))
+    add(3, 2, 0, [_reg(2, "w") for _ in range(6)], (None,))
+    add(3, 1, 0, [_reg(5, "r", 0), _reg(1, "rw", 6)], (None, 0))
+    add(3, 1, 0, [_reg(6, "w", 1), _reg(1, "rw", 0)], (None,))
+    for dw in (1, 2):
+        add(3, dw, 0, [_reg(dw, "rw", 1), _reg(dw, "rw", None, 0, 1)], (None, 0, 1))
+        add(3, dw, 0, [_reg(dw, "w", 1), _reg(dw + 1, "rw", None, 0, 2)], (None, 0))
+        add(3, dw, 0, [_reg(dw, "rw", 0), _reg(dw, "rw", None, 0, 1), _reg(dw, "rw", 5), _reg(dw, "rw", None, 0, 1)], (None,))
+    # nine and ten address bits: registers beyond address 0x100 (bus addresses from a thinned set, see addr_set)
+    out.append(dict(aw=9, dw=2, align=0, ov=None, regs=[_reg(2, "r", 0x001), _reg(2, "rw", 0x101), _reg(3, "rw", 0x1FE)],
+                    addr_set=[0, 1, 2, 0xFE, 0xFF, 0x100, 0x101, 0x102, 0x1FE, 0x1FF]))
+    out.append(dict(aw=10, dw=2, align=0, ov=0, regs=[_reg(2, "rw", 0x201), _reg(4, "rw", 0x3FE), _reg(2, "w", 0x101)],
+                    addr_set=[0, 1, 0x101, 0x201, 0x202, 0x301, 0x3FE, 0x3FF, 0x1FE, 0x200]))
     # byte-wide bus (the width real systems use): write data and register values from token sets
     for regs in ([_reg(8, "rw", None), _reg(12, "rw", None)], [_reg(20, "rw", 1), _reg(8, "r", None)],
                  [_reg(16, "w", 2), _reg(9, "rw", 5)], [_reg(24, "rw", 3), _reg(1, "rw", None)]):
